@@ -295,7 +295,7 @@ type fileStats struct {
 	why            map[string]int
 }
 
-// mutate returns a copy of a synthesized file with one byte changed inside the VALUES of a sample-table or header box
+// mutate returns a copy of a synthesized file with one low-order byte changed inside the VALUES of a sample-table or header box
 // (stts ctts stsc stsz stco co64 stss sdtp elst: behind the entry count; tkhd mvhd mdhd: behind version/flags), so that the box
 // structure stays decodable while counts, deltas, sizes, offsets, ids, timescales or durations become inconsistent. The malformed
 // stream of the whole-tool correspondence: outcome class and, on success, every output byte must agree with the model.
@@ -328,7 +328,12 @@ func mutate(rng *hx.Rng, data []byte) ([]byte, string) {
 		return nil, ""
 	}
 	c := cs[rng.Intn(len(cs))]
-	p := c.lo + rng.Intn(c.hi-c.lo)
+	// the LOW-ORDER byte of a 32-bit word: the values stay small (a sample number or count of 2^27 makes the tool - and the
+	// model - loop for minutes before both crash: seen once, `stss` entry 0x08000001, index out of range in GetDecodeTime)
+	if c.hi-c.lo < 4 {
+		return nil, ""
+	}
+	p := c.lo + 4*rng.Intn((c.hi-c.lo)/4) + 3
 	out := append([]byte(nil), data...)
 	old := out[p]
 	switch rng.Intn(4) {
